@@ -4,7 +4,7 @@ under /verif/seeded/<ID><suffix>/ with what caught it."""
 import sys, os, json, subprocess, shutil
 pid = sys.argv[1]
 suf = sys.argv[2] if len(sys.argv) > 2 else ''
-src = '/tmp/mut/%s.out' % pid
+src = os.environ.get('SRC_ROOT', '/tmp/mut') + '/%s.out' % pid
 patch, demo, meta = [os.path.join(src, n % suf) for n in ('patch%s.diff', 'demo%s.rs', 'meta%s.json')]
 demosh = os.path.join(src, 'demo%s.sh' % suf)
 use_sh = os.path.exists(demosh) and (pid in ('C19', 'C20') or not os.path.exists(demo))
@@ -19,11 +19,13 @@ confirmed = 'RESULT confirmed' in c
 print(c.strip().splitlines()[-3:])
 if not confirmed:
     print('NOT CONFIRMED', pid, suf); sys.exit(1)
-t = subprocess.run(['/verif/tools/try_patch.sh', patch], stdout=subprocess.PIPE, stderr=subprocess.STDOUT, text=True).stdout
+ids = [pid] if os.environ.get('OWN_ONLY') else []
+t = subprocess.run(['/verif/tools/try_patch.sh', patch] + ids, stdout=subprocess.PIPE, stderr=subprocess.STDOUT, text=True).stdout
 print(t)
 caught = [l for l in t.splitlines() if l.startswith('CAUGHT-BY:')]
 caught = caught[0][len('CAUGHT-BY:'):].split() if caught else []
-name = pid + ('-2' if suf else '-1')
+base = int(os.environ.get('SEED_BASE', '0'))
+name = pid + '-%d' % (base + (2 if suf else 1))
 dst = '/verif/seeded/%s' % name
 os.makedirs(dst, exist_ok=True)
 shutil.copy(patch, os.path.join(dst, 'patch.diff'))
